@@ -9,6 +9,7 @@
 //!   `/verif/evidence/<id>.json`, replay files, and decides the exit code:
 //!   0 held / 1 VIOLATION / 2 INCONCLUSIVE.
 
+pub mod fuzzglue;
 pub mod panics;
 pub mod rng;
 mod runner;
